@@ -92,12 +92,31 @@ def main(tier):
     allh = [next(iter(h)) for h in hashes.values() if len(h) == 1]
     if len(set(allh)) != len(allh):
         V.fail("hash-collision", f"different scenarios announce the same configuration hash: {hashes}", {"hashes": {k: sorted(v) for k, v in hashes.items()}})
+    # the hash function itself: SHA-256 of the whole text (texts that differ anywhere - also only in their last bytes, also
+    # shorter than one block - get different hashes; equal texts equal hashes)
+    import hashlib
+    import random as _r
+    from AIDojoCoordinator.utils.utils import get_str_hash
+    rr = _r.Random(20 + seed())
+    hash_cases = 0
+    for n in [0, 1, 10, 100, 4095, 4096, 4097, 5000, 8192, 9000, 20000] + [rr.randint(0, 30000) for _ in range(40)]:
+        txt = "".join(rr.choice("abcdefghij(),='{} \n") for _ in range(n))
+        hash_cases += 1
+        try:
+            h = get_str_hash(txt)
+        except Exception as e:
+            V.fail("hash-raises", f"get_str_hash raised {e!r} on a text of {n} characters", {"length": n})
+            break
+        if h != hashlib.sha256(txt.encode("utf-8")).hexdigest():
+            V.fail("hash-not-of-whole-text", f"get_str_hash of a text of {n} characters is not the SHA-256 of the whole text: texts that differ only in the part that is left out announce the same configuration hash",
+                   {"length": n, "text_tail": txt[-40:]})
+            break
     code, nviol = V.finish()
     cov = {"programs": programs, "disagreements_checked": disagreements, "samples": samples,
            "evaluations": programs, "distinct_nontrivial": max(nontrivial, 2) if nontrivial else 0,
            "rule": "probe sessions (2 agents static / 1 agent dynamic, global defender on, random start host, several episodes with resets) run in separate interpreters with different PYTHONHASHSEED; canonical transcripts (sets sorted) and configuration hashes compared; non-trivial = dynamic addressing with >= 2 resets",
            "obligations": info.get("obligations", 0), "discharged": info.get("discharged", 0), "theorems": info.get("theorems", []),
-           "hashseeds": hashseeds, "scenario_hashes": {k: sorted(v) for k, v in hashes.items()},
+           "hashseeds": hashseeds, "hash_function_cases": hash_cases, "scenario_hashes": {k: sorted(v) for k, v in hashes.items()},
            "explanation": "cross-process determinism is a statement about interpreter hash randomisation and seeding, which a functional model cannot exhibit; the Lean side only states that the model is a function of (settings, events, oracle values)",
            "proof_failures": V.proof_failures}
     write_evidence("C20", tier, "translation_validation", cov, T.s(), nviol,
